@@ -611,3 +611,6 @@ Proof.
   split; [vm_compute; reflexivity|].
   intros bond [<-|[<-|[]]]; vm_compute; reflexivity.
 Qed.
+
+Lemma whole_tracks B bonds xyz : tracks B xyz (make_whole B bonds (init_state xyz)).
+Proof. apply tracks_make_whole, tracks_init. Qed.
